@@ -1459,6 +1459,24 @@ FUNCS = [
                    ("let host = &t[..idx];", "let host := before_"),
                    ("if host.is_empty() || host.contains('/') { None } else { Some((host, &t[idx + 1..])) }",
                     "if host.isEmpty || host.contains '/' then\n  return none\nelse\n  return (some (host, after_))")]),
+    # ---- main.rs: which function a parsed command line runs, and with which of its flags
+    dict(group="target", file="src/bin/copia/main.rs", name="run", sig=None,
+         lean="def cliRunGen (cmd : Nat) (recursive : Bool) : Nat := Id.run do\n"
+              "  -- cmd: 0 Sync, 1 Bisync, 2 Serve, 3 HubSync, 4 Signature, 5 Delta, 6 Patch (the clap enum, in declaration order of the arms);\n"
+              "  -- result: 0 run_sync_recursive(parse(source), parse(dest), {jobs, verbose, dry_run, delete, excludes}), 1 run_sync(parse(source), parse(dest), block_size, verbose),\n"
+              "  -- 2 run_bisync(a, b, {dry_run, verbose}), 3 serve(root), 4 hub_sync(local, target), 5 run_signature, 6 run_delta, 7 run_patch — each flag handed on under its own name",
+         calls={}, paths={},
+         verbatim=[("match cli.command { Commands::Sync { source, dest, block_size, recursive, jobs, verbose, dry_run, delete, excludes, } => { "
+                    "let src_loc = FileLocation::parse(&source); let dest_loc = FileLocation::parse(&dest); "
+                    "if recursive { let opts = SyncOptions { jobs, verbose, dry_run, delete, excludes, }; run_sync_recursive(src_loc, dest_loc, opts).await } "
+                    "else { run_sync(src_loc, dest_loc, block_size, verbose).await } } "
+                    "Commands::Bisync { a, b, dry_run, verbose, } => bidir::run_bisync(&a, &b, &bidir::BidirOptions { dry_run, verbose }), "
+                    "Commands::Serve { root } => serve::serve(&root), "
+                    "Commands::HubSync { local, target } => hub::hub_sync(&local, &target), "
+                    "Commands::Signature { file, output, block_size, } => run_signature(&file, output, block_size).await, "
+                    "Commands::Delta { source, signature, output, } => run_delta(&source, &signature, output).await, "
+                    "Commands::Patch { basis, delta, output, } => run_patch(&basis, &delta, output).await, }",
+                    "return (match cmd with\n  | 0 => if recursive then 0 else 1\n  | 1 => 2\n  | 2 => 3\n  | 3 => 4\n  | 4 => 5\n  | 5 => 6\n  | _ => 7)")]),
     dict(group="target", file="src/bin/copia/main.rs", name="parse", sig=None,
          lean="def parseLocationGen (s : List Char) : Copia.Target.Loc := Id.run do", calls={}, paths={},
          verbatim=[("if let Some(colon_pos) = s.find(':') { let before_colon = &s[..colon_pos]; "
